@@ -151,8 +151,17 @@ def range1 (item : Str) : Except ParseError Range :=
     | some q => .ok ⟨m, o, q⟩
     | none => .error .badQ
 
-/-- all keys are computed before sorting: the first bad `q` raises -/
-def ranges (header : Str) : Except ParseError (List Range) := (splitCsv header).mapM range1
+/-- all keys are computed (left to right) before sorting: the first bad `q` raises -/
+def rangesOf : List Str → Except ParseError (List Range)
+  | [] => .ok []
+  | i :: is =>
+    match range1 i with
+    | .error e => .error e
+    | .ok r => match rangesOf is with
+      | .error e => .error e
+      | .ok rs => .ok (r :: rs)
+
+def ranges (header : Str) : Except ParseError (List Range) := rangesOf (splitCsv header)
 
 /-- insertion into a list sorted by descending `q`; the new element was *before* all of `l` in the
 header, so it goes in front of every element that is not strictly better -/
@@ -237,15 +246,22 @@ def Tok.accepts (c : Char) : Tok → Bool
   | .set neg items => (items.any (Item.has c)) != neg
   | .lit a => a == c
 
-/-- backtracking matcher of a compiled pattern against a whole string (`re.match(... \Z)`) -/
+/-- `f` holds for some suffix of the string (the choices of a `*`) -/
+def anySuffix (f : Str → Bool) : Str → Bool
+  | [] => f []
+  | c :: s => f (c :: s) || anySuffix f s
+
+/-- backtracking matcher of a compiled pattern against a whole string (`re.match(... \Z)`);
+structural on the pattern so that it evaluates in the kernel -/
 def globToks : List Tok → Str → Bool
-  | [], [] => true
-  | [], _ :: _ => false
-  | .star :: ts, [] => globToks ts []
-  | .star :: ts, c :: s => globToks ts (c :: s) || globToks (.star :: ts) s
-  | _ :: _, [] => false
-  | t :: ts, c :: s => t.accepts c && globToks ts s
-termination_by ts s => ts.length + s.length
+  | [], s => s.isEmpty
+  | .star :: ts, s => anySuffix (globToks ts) s
+  | .any :: _, [] => false
+  | .any :: ts, _ :: s => globToks ts s
+  | .set _ _ :: _, [] => false
+  | .set neg items :: ts, c :: s => (Tok.set neg items).accepts c && globToks ts s
+  | .lit _ :: _, [] => false
+  | .lit a :: ts, c :: s => (Tok.lit a).accepts c && globToks ts s
 
 /-- `fnmatch.fnmatch(name, pat)` on POSIX (`normcase` is the identity) -/
 def glob (pat name : Str) : Bool := globToks (compile pat) name
@@ -297,5 +313,22 @@ def csvDumps (rows : List (List Str)) : Str :=
 /-- `read_csv` on the slice: lines (the text ends with a terminator), then fields -/
 def csvLoads (text : Str) : List (List Str) :=
   ((splitOn '\n' text).dropLast).map (splitOn ',')
+
+/-- typed reading of a cell, single-cell column: `read_csv` infers the column type from the text, so a
+text made of digits comes back as a number (the writer does not mark text cells in any way) -/
+inductive Cell where
+  | int (n : Nat)
+  | text (s : Str)
+  deriving DecidableEq, Repr
+
+def looksNumeric (s : Str) : Bool := !s.isEmpty && s.all isDigit
+
+/-- `to_csv` of one cell on the unquoted slice -/
+def Cell.render : Cell → Str
+  | .int n => Nat.toDigits 10 n
+  | .text s => s
+
+/-- `read_csv` of a one-cell column -/
+def Cell.read (s : Str) : Cell := if looksNumeric s then .int (digitsVal s) else .text s
 
 end ForML.Codec
